@@ -405,15 +405,21 @@ def impl(op, backend):
                 p.set_locale("en")
         else:
             y, mo, w, d, h, mi, sec = c
+            # sub-second parts on both values (the later one's is the larger, so the whole-unit components stay c): the phrase
+            # depends on the whole units only, whichever of the two microsecond fields is the larger
+            import zlib
+            hq = zlib.crc32(("us" + repr(op)).encode())
+            ua = (0, 0, 100000, 250000, 1)[hq % 5]
+            ub = ua + (0, 1, 650000, 999999 - ua, 400000)[(hq >> 4) % 5]
             if how == "dfh-dt":
-                a = _P["base"]
-                b = a.add(years=y, months=mo, weeks=w, days=d, hours=h, minutes=mi, seconds=sec)
+                a = _P["base"].add(microseconds=ua)
+                b = _P["base"].add(years=y, months=mo, weeks=w, days=d, hours=h, minutes=mi, seconds=sec, microseconds=ub)
             elif how == "dfh-date":
                 a = p.date(2000, 1, 1)
                 b = a.add(years=y, months=mo, weeks=w, days=d)
             else:
-                a = p.time(0, 0, 0)
-                b = p.time(h, mi, sec)
+                a = p.time(0, 0, 0, ua)
+                b = p.time(h, mi, sec, ub)
             if inv:          # the instance is LATER than the reference
                 a, b = b, a
             b = _operand_kind(op, how, b)
